@@ -1,7 +1,7 @@
 (* C01 - AMM pool reserves always equal the tokens the pool really holds; DenomLiquidity = sum of reserves.
    Statements only; proofs in Proofs/AmmLedgerProofs.v, model in Models/AmmLedger.v. *)
 From Coq Require Import ZArith List Bool Arith.
-From Elys Require Import Base.Res Base.Fn Models.AmmLedger Proofs.AmmLedgerProofs.
+From Elys Require Import Base.Res Base.Fn Models.AmmLedger Proofs.AmmLedgerProofs Proofs.AmmLedgerFrame.
 Import ListNotations.
 Open Scope Z_scope.
 
@@ -44,6 +44,58 @@ Theorem C01_prefix_shared_array_refuted :
              liq s' 1%nat <> sumf (fun p => reserve s' p 1%nat) [0%nat].
 Proof. exact prefix_swap_refuted. Qed.
 Print Assumptions C01_prefix_shared_array_refuted.
+
+(* From the EMPTY chain (no pools, no balances: the invariant holds there for every pool list), i.e. with no hypothesis
+   on a start state: every history over the pools that exist keeps bank = reserve + donations and
+   DenomLiquidity = sum of reserves. *)
+Theorem C01_every_history_from_genesis : forall (ps : list nat), NoDup ps ->
+  forall h, Forall (Forall (fun o => In (pool_of o) ps)) h -> Inv ps (arun amm_empty h).
+Proof. exact arun_from_empty. Qed.
+Print Assumptions C01_every_history_from_genesis.
+
+(* What a successful primitive step changes EXACTLY at its own (pool, denom): book reserve, bank balance and liquidity
+   record move by the same signed amount (a donation moves the bank balance and the donation ghost only) ... *)
+Theorem C01_step_exact : forall s o s', astep s o = Ok s' ->
+  reserve s' (pool_of o) (denom_of o) = reserve s (pool_of o) (denom_of o) + d_reserve o /\
+  pbank s' (pool_of o) (denom_of o) = pbank s (pool_of o) (denom_of o) + d_bank o /\
+  liq s' (denom_of o) = liq s (denom_of o) + d_reserve o /\
+  donated s' (pool_of o) (denom_of o) = donated s (pool_of o) (denom_of o) + d_donated o.
+Proof. exact astep_exact. Qed.
+Print Assumptions C01_step_exact.
+
+(* ... and what it must NOT change: no other pool, no other denom of the same pool, no other liquidity record. *)
+Theorem C01_step_frame : forall s o s', astep s o = Ok s' ->
+  (forall p d, (p <> pool_of o \/ d <> denom_of o) ->
+     reserve s' p d = reserve s p d /\ pbank s' p d = pbank s p d /\ donated s' p d = donated s p d) /\
+  (forall d, d <> denom_of o -> liq s' d = liq s d).
+Proof. exact astep_frame. Qed.
+Print Assumptions C01_step_frame.
+
+(* A whole transaction (successful or not) leaves every pool it does not name exactly as it was. *)
+Theorem C01_tx_other_pools_untouched : forall s l p, (forall o, In o l -> pool_of o <> p) ->
+  forall d, reserve (atx s l) p d = reserve s p d /\ pbank (atx s l) p d = pbank s p d /\
+            donated (atx s l) p d = donated s p d.
+Proof. exact atx_other_pools. Qed.
+Print Assumptions C01_tx_other_pools_untouched.
+
+(* All or nothing: a transaction one of whose steps fails leaves the whole ledger as it was. *)
+Theorem C01_failed_tx_changes_nothing : forall s l, (forall s', asteps s l <> Ok s') -> atx s l = s.
+Proof. exact atx_failed_unchanged. Qed.
+Print Assumptions C01_failed_tx_changes_nothing.
+
+(* A payout above the book reserve, the bank balance or the liquidity record is refused (no negative book, no overdraft). *)
+Theorem C01_payout_beyond_books_refused : forall s p d a,
+  (reserve s p d < a \/ pbank s p d < a \/ liq s d < a) -> exists c, astep s (AOut p d a) = Err c.
+Proof. exact aout_refused. Qed.
+Print Assumptions C01_payout_beyond_books_refused.
+
+(* non-vacuity of the refusal and the all-or-nothing statements on a reachable state *)
+Example C01_refusal_nonvacuous :
+  let s := arun amm_empty [[AIn 0 0 100; AIn 0 1 50]; [ADonate 0 0 7]] in
+  pbank s 0%nat 0%nat = 107 /\ reserve s 0%nat 0%nat = 100 /\
+  astep s (AOut 0 0 101) = Err E_neg /\ atx s [AOut 0 1 20; AOut 0 0 101] = s /\
+  reserve (atx s [AOut 0 1 20; AOut 0 0 100]) 0%nat 1%nat = 30.
+Proof. vm_compute. repeat split. Qed.
 
 Example C01_nonvacuous :
   let s := arun refute_s0 [[AIn 0 1 500; AOut 0 0 2000; AOut 0 1 2]; [ADonate 0 0 7]; [AOut 0 0 999999]] in
